@@ -184,7 +184,7 @@ Expected(i, cfg) ==
       [] r.op.op = "reopen"  -> OpReopen(pre)
       [] r.op.op = "clear"   -> OpClear(pre)
       [] r.op.op = "droprange" -> OpDropRange(pre, [lo |-> r.op.lo, hi |-> r.op.hi])
-      [] r.op.op = "ingest"  -> OpIngest(pre, r.op.items)
+      [] r.op.op = "ingest"  -> OpIngestSep(pre, r.op.items, cfg.sep)
       [] r.op.op = "snap"    -> OpOpenSnap(pre)
       [] r.op.op = "release" -> OpReleaseSnap(pre, r.op.S)
       [] OTHER -> pre
@@ -376,8 +376,29 @@ BlobChecks(i, r) ==
 
 
 
+\* C20: every file a retained view needs exists; the newest version's file and the pointer exist
+FilesLive(rst) ==
+    /\ \A h \in 1..Len(rst.hist) :
+          /\ AllIds(rst.hist[h].lv) \subseteq Range(rst.ls.tables)
+          /\ Range(rst.hist[h].blobs) \subseteq Range(rst.ls.blobs)
+    /\ rst.hist[Len(rst.hist)].vid \in Range(rst.ls.v)
+    /\ "current" \in Range(rst.ls.other)
+
+\* C20: once no older view is retained (after maintenance above all past version changes
+\* with no reader, and always after a reopen) the directory holds exactly the files the
+\* newest version names
+DirClean(rst) ==
+    Len(rst.hist) = 1 =>
+        LET sv == rst.hist[1] IN
+        /\ Range(rst.ls.tables) = AllIds(sv.lv)
+        /\ Range(rst.ls.blobs) = Range(sv.blobs)
+        /\ Range(rst.ls.v) = {sv.vid}
+        /\ Range(rst.ls.other) = {"current"}
+
 StateChecks(i, a, cfg) ==
     LET r == Rec[i] st == Post(i) IN
+    /\ (FilesLive(r.st)         \/ Say("VIOL", "FILES", i, r.st.ls))
+    /\ (DirClean(r.st)          \/ Say("VIOL", "DIRCLEAN", i, <<r.st.ls, r.st.hist[1].lv, r.st.hist[1].blobs>>))
     /\ (r.op.op # "fifo" \/ FifoOk(i) \/ Say("VIOL", "FIFO", i, r.info))
     /\ (PStructureSound(st)     \/ Say("VIOL", "STRUCT", i, st.hist))
     /\ (MetaOk(r.st)            \/ Say("VIOL", "META", i, r.st.tbls))
